@@ -60,6 +60,8 @@ def run(chk):
     binp = vf.build_harness("c19")
     thorough = chk.tier != "quick"
     only = replay_stream(chk)
+    if not chk.replay:
+        corpus(chk, binp)
     for stream, n, rule in (("fmt", 6000 if thorough else 600, RULE_FMT),
                             ("sink", 900 if thorough else 130, RULE_SINK),
                             ("app", 600 if thorough else 60, RULE_APP)):
@@ -71,6 +73,28 @@ def run(chk):
     if chk.broken_obligation:
         chk.violation("broken-obligation", "proofs", {"obligations": chk.broken_obligation}, "does not check", "Qed",
                       found=False, key="obligation")
+
+
+def corpus(chk, binp):
+    """corpus/C19/*.json (witnesses of the defects found and of the mutations) replayed first, one batch per stream"""
+    import glob
+    import json
+    by = {}
+    for f in sorted(glob.glob(os.path.join(vf.ROOT, "corpus", "C19", "*.json"))):
+        v = json.load(open(f))
+        c = v["case"]
+        c["corpus"] = os.path.basename(f)[:-5]
+        by.setdefault(v.get("stream", "fmt"), []).append(c)
+    for stream, cases in sorted(by.items()):
+        cdir = os.path.join(chk.outdir, "corpus_" + stream)
+        os.makedirs(cdir, exist_ok=True)
+        cf_ = os.path.join(cdir, "corpus_cases.json")
+        json.dump({"cases": cases}, open(cf_, "w"))
+        rc = vf.run_stream(binp, stream, len(cases), chk.seed, os.path.join(cdir, "run"), shards=2, replay=cf_)
+        chk.coverage["streams"]["corpus_" + stream] = {"cases": len(cases), "rule": "corpus/C19/*.json replayed (full payloads)",
+                                                       "hist": rc.stats.get("hist", {}), "distinct_nontrivial": 0}
+        chk.coverage["evaluations"] += len(cases)
+        vf.compare(chk, rc, classify=classify, binpath=binp, stream_label="corpus_" + stream)
 
 
 def replay_stream(chk):
